@@ -245,20 +245,21 @@ impl File {
                 }
                 ast::Root::LigTable(b) => {
                     for node in b.children {
-                        let mut insert_lig_kern_instruction = |instruction, span| {
-                            if file.lig_kern_program.instructions.len()
-                                < MAX_LIG_KERN_INSTRUCTIONS as usize
-                            {
-                                file.lig_kern_program.instructions.push(instruction);
-                            } else {
-                                // TODO: add a test for this case
-                                errors.push(error::ParseWarning {
-                                    span,
-                                    knuth_pltotf_offset: None,
-                                    kind: ParseWarningKind::LigTableIsTooBig,
-                                });
-                            }
-                        };
+                        let mut insert_lig_kern_instruction =
+                            |instruction, span: std::ops::Range<usize>| {
+                                if file.lig_kern_program.instructions.len()
+                                    < MAX_LIG_KERN_INSTRUCTIONS as usize
+                                {
+                                    file.lig_kern_program.instructions.push(instruction);
+                                } else {
+                                    // TODO: add a test for this case
+                                    errors.push(error::ParseWarning {
+                                        knuth_pltotf_offset: Some(span.end),
+                                        span,
+                                        kind: ParseWarningKind::LigTableIsTooBig,
+                                    });
+                                }
+                            };
                         match node {
                             ast::LigTable::Label(v) => {
                                 let u: u16 = file.lig_kern_program.instructions.len().try_into().expect("lig_kern_instructions.len()<= MAX_LIG_KERN_INSTRUCTIONS which is a u16");
